@@ -1428,8 +1428,8 @@ pub fn run(o: &Opts, rec: &mut Recorder) {
 // An NSEC3-signed `InMemoryZoneHandler` (real Ed25519 key) behind a `Catalog` answers every query
 // in/around the zone, twice: raw (DO set) and through the real validator `DnssecDnsHandle` whose trust
 // anchor is the zone key.  Completeness: the validator must accept (Ok) what the server sends —
-// negative and wildcard responses (the property's clause) and, recorded under its own class, plain
-// positive answers.  The NSEC3 records / SOA name / rcode / answers of each raw response are also handed
+// negative and wildcard responses (the property's clause) and plain positive answers (repaired in
+// /repo a0f75fc: the caller no longer evaluates the QNAME NSEC3 the server attaches to them as a denial).  The NSEC3 records / SOA name / rcode / answers of each raw response are also handed
 // to `verify_nsec3` exactly as `verify_response` selects them and recorded as an ordinary `v` case, so
 // the model and the soundness oracle see the server's own proofs as well.
 mod e2e {
@@ -1456,7 +1456,7 @@ mod e2e {
 
     use super::*;
 
-    pub const CL_POSITIVE: &str = "positive-answer-rejected-because-of-attached-qname-nsec3";
+    pub const CL_CNAME: &str = "cname-answer-rejected-because-of-attached-qname-nsec3";
 
     #[derive(Clone, Default)]
     struct Capture(Arc<Mutex<Vec<u8>>>);
@@ -1709,7 +1709,17 @@ mod e2e {
                     q,
                     t,
                     format!("completeness: DnssecDnsHandle rejects the server's plain positive answer for {q} type {t} ({} NSEC3 attached): {e} — zone {}", nsec3s.len(), describe_spec(z)),
-                    if nsec3s.is_empty() { "" } else { CL_POSITIVE },
+                    // narrow class from the input: the answer is a CNAME RRset at QNAME for another QTYPE
+                    // (the caller's exemption of /repo a0f75fc covers RRsets of the query type only)
+                    if t != T_CNAME
+                        && !nsec3s.is_empty()
+                        && resp.answers.iter().any(|rr| rr.name == *q && rr.record_type() == RecordType::CNAME)
+                        && !resp.answers.iter().any(|rr| rr.name == *q && u16::from(rr.record_type()) == t)
+                    {
+                        CL_CNAME
+                    } else {
+                        ""
+                    },
                 );
             }
         }
